@@ -171,8 +171,7 @@ Section Walk.
     else
       let key0 := if g_pathlib cf then pathlib_norm path' else path' in
       let key := if g_cs cf then key0 else lower key0 in
-      (* the code looks the (possibly lowered) key up but stores the un-lowered path *)
-      if existsb (str_eqb key) seen then ([], seen) else ([path'], key0 :: seen).
+      if existsb (str_eqb key) seen then ([], seen) else ([path'], key :: seen).
 
   Definition is_excluded (path : str) (is_dir : bool) : bool :=
     g_has_excl cf && exclmatch (if is_dir && negb (ends_with [cSLc] path) then path ++ [cSLc] else path).
